@@ -305,6 +305,13 @@ def p_c09(run):
     if run.tier != "quick":
         vs += [C.build_variant(run.work, "noua", "gcc", "-O1", "asan"), C.build_variant(run.work, "w32", "clang", "-O1", "asan"),
                C.build_variant(run.work, "nosimd", "gcc", "-O1", "asan")]
+    # every load and store of the translated whole functions lies inside its buffer as sized by the arguments (wf_prog of the
+    # flattened code, re-proved per public configuration): single-block API, key schedule at every key length, CTR and
+    # parallel back ends (generic and SIMD) at sampled lengths / offsets
+    import whole as W
+    q = run.tier == "quick"
+    whole_tie(run, ("native", "noua") if q else ("native", "w32", "noua", "neutral"),
+              (W.QUICK_BLK if q else W.BLK_PARTS) + W.key_parts("128", q) + W.key_parts("64", q) + W.ct_part_names(q))
     run_scripts(run, G.gen_c09(run.rng, run.tier), vs)
 
 def p_c10(run):
